@@ -58,7 +58,9 @@ def gen_source(rng):
             a, b = rng.sample(pool, 2)
             extra.append(f'{k}  "${a} * ${b}";')
         elif kind == 3 and "vec" in vs:
-            extra.append(f"{k}  $vec[{rng.randrange(0, 3)}];")
+            # an indexed reference, or an expression whose value is a NumPy scalar (mean / std / an element of an array)
+            extra.append(rng.choice([f"{k}  $vec[{rng.randrange(0, 3)}];", f'{k}  "mean($vec)";', f'{k}  "std($vec) + 1";',
+                                     f'{k}  "ones(3)[0] * 2";', f'{k}  "sum(array($vec))";']))
         elif kind == 4:
             extra.append(f"{k}  $undefined{i};")
         else:
